@@ -145,7 +145,7 @@ class DocGen:
                              '<w:footnoteRef/>', '<w:footnoteReference w:id="3"/>', '<w:endnoteRef/>'])
         if kind == 'form': return self.form()
         if kind == 'drawing':
-            dsc = r.choice(['', ' descr="d &amp; &lt;x&gt;"', ' descr=""', ' descr="plain alt"'])
+            dsc = r.choice(['', ' descr="d &amp; &lt;x&gt;"', ' descr=""', ' descr="plain alt"'] if P.get('alt_markup', True) else ['', ' descr="plain alt"', ' descr="alt two"'])
             e = r.choice(['r:embed="rId20"', 'r:embed="rId404"', 'r:link="rId21"', '', 'r:embed="rId21"'] if P.get('dangling') else ['r:embed="rId20"', 'r:embed="rId21"', ''])
             return f'<w:drawing><wp:inline><wp:extent cx="1" cy="1"/><wp:docPr id="1" name="n"{dsc}/><a:graphic><a:graphicData uri="u"><a:blip {e}/></a:graphicData></a:graphic></wp:inline></w:drawing>'
         if kind == 'pict':
@@ -202,6 +202,7 @@ class DocGen:
             x -= P.get(k, 0)
             if x <= 0: kind = name; break
         if kind == 'link' and (in_link and d > 2): kind = 'run'
+        if kind == 'cm' and in_link and self.p.get('no_marker_in_link'): kind = 'run'
         if kind == 'run': return self.run(d, in_link=in_link)
         self.c('il:' + kind)
         if kind == 'link': return self.hyperlink(d)
@@ -216,7 +217,7 @@ class DocGen:
         if kind == 'fld': return '<w:fldSimple w:instr=" PAGE ">' + self.run(d, in_link=in_link) + '</w:fldSimple>'
         if kind == 'sdt': return '<w:sdt><w:sdtPr><w:dropDownList><w:listItem w:value="a"/></w:dropDownList></w:sdtPr><w:sdtEndPr/><w:sdtContent>' + self.run(d, in_link=in_link) + '</w:sdtContent></w:sdt>'
         self.feat.add('math')
-        if r.random() < 0.7:
+        if r.random() < 0.7 or not self.p.get('math_markup', True):
             return '<m:oMath><m:r><m:t>x</m:t></m:r><m:f><m:num><m:r><m:t>1</m:t></m:r></m:num><m:den><m:r><m:t>2</m:t></m:r></m:den></m:f></m:oMath>'
         return '<m:oMathPara><m:oMath><m:r><m:t>y&lt;</m:t></m:r></m:oMath></m:oMathPara>'
 
